@@ -87,7 +87,7 @@ def run(tier):
     mp = vlib.run_to_file([py["python"], os.path.join(vlib.HARNESS, "py", "rec_pymisc.py"), str(vlib.SEED), tier],
                           os.path.join(chk.work, "pymisc.ndjson"), timeout=3600, env=env)
     mfiles, _ = vlib.split_file(mp, 8, chk.work, "pymisc")
-    chk.traces("PyMiscTrace", mfiles, what="memoryview export and ...ArrayFromBuffer for every exporting class x source type/shape; FixedArray2D get/set/mask for index and forward-slice keys per dimension; FixedMatrix rows (views outliving the matrix); StringArray last-write", episodes=1)
+    chk.traces("PyMiscTrace", mfiles, what="memoryview export and ...ArrayFromBuffer for every exporting class x source type/shape; FixedArray2D get/set/mask for index and forward-slice keys per dimension; FixedMatrix rows (views outliving the matrix); FixedVArray as nested lists: index/forward-slice/mask selection, row := array and rows := variable array assignment with length checks, row views aliasing and outliving the array, read-only; StringArray last-write", episodes=1)
     chk.sample_lines(mp, idx=(3, 200), maxlen=400)
     chk.sample(hist[len(hist) // 2])
     chk.sample_lines(traces[0], idx=(2, 3), maxlen=500)
